@@ -1,6 +1,6 @@
 (** C12 — token interface of the model for the correspondence check
     (same observations as harness/src/bin/c12.rs). *)
-From Coq Require Import List Arith ZArith NArith String Bool.
+From Coq Require Import List Arith ZArith NArith String Bool FMapPositive.
 From SV Require Import Common.Tok C12.Model.
 Import ListNotations.
 Open Scope string_scope.
@@ -21,8 +21,25 @@ Definition view (s : state) (c : nat) : list tok :=
           then map (fun e => match e with Some i => tnat i | None => TN usize_max end) (m_table mg)
           else [])
       ++ [tnat (List.length (m_addrs mg))] ++ map tN (m_addrs mg)
-  | PMaglevBig built addrs _ =>
-    [TS "mv"; TN 65537; TN (if built then 65537 else 0); tnat (List.length addrs)] ++ map tN addrs
+  | PMaglevBig mg _ =>
+    [TS "mv"; tN (mf_size mg); TN (if mf_built mg then Z.of_N (mf_size mg) else 0);
+     tN (if mf_built mg then table_fingerprint (mf_table mg) 0 0 (N.to_nat (mf_size mg)) else 0);
+     tnat (List.length (mf_addrs mg))] ++ map tN (mf_addrs mg)
+  | _ => []
+  end.
+
+Fixpoint trie_slots (t : ptable) (c : N) (fuel : nat) : list N :=
+  match fuel with
+  | O => []
+  | S f =>
+    (match PositiveMap.find (pkey c) t with Some i => N.min (N.of_nat i) 255 | None => 255 end)
+      :: trie_slots t (N.succ c) f
+  end.
+
+Definition table_bytes (s : state) (c : nat) : list N :=
+  match c_lb (cget s c) with
+  | PMaglevBig mg _ => if mf_built mg then trie_slots (mf_table mg) 0 (N.to_nat (mf_size mg)) else []
+  | PMaglev mg _ => map (fun e => match e with Some i => N.min (N.of_nat i) 255 | None => 255 end) (m_table mg)
   | _ => []
   end.
 
@@ -72,7 +89,7 @@ Definition kind_of (nm : string) : pkind :=
   else if nm =? "p2c" then KP2c else if nm =? "hrw" then KHrw else KMaglev.
 
 (** tokens -> operation of [Model.op] (plus the three read-only queries) *)
-Inductive cmd := CmdOp (o : op) | CmdSticky (c : nat) (sid : N) | CmdDump | CmdNop | CmdBad.
+Inductive cmd := CmdOp (o : op) | CmdSticky (c : nat) (sid : N) | CmdDump | CmdNop | CmdTable (c : nat) | CmdBad.
 
 Definition parse (op : list tok) : cmd :=
   match op with
@@ -138,6 +155,8 @@ Definition parse (op : list tok) : cmd :=
     else if name =? "sticky_conn" then
       match args with [TN c; TN sid; TN w] => CmdOp (OStickyConn (znat c) (zN sid) (zN w)) | _ => CmdBad end
     else if name =? "dump" then CmdDump
+    else if name =? "table" then
+      match args with [TN c] => CmdTable (znat c) | _ => CmdBad end
     else if name =? "bb" then CmdNop      (* black-box run: nothing of the model is involved *)
     else CmdBad
   | _ => CmdBad
@@ -200,6 +219,7 @@ Definition step (s : state) (t : list tok) : state * list tok :=
   | CmdSticky c sid => (s, [match find_sticky s c sid with Some h => tnat h | None => TS "none" end])
   | CmdDump => (s, dump s)
   | CmdNop => (s, [])
+  | CmdTable c => (s, [TB (table_bytes s c)])
   | CmdBad => (s, [TS "badop"])
   end.
 
